@@ -6,7 +6,7 @@
    expiry).  The library oracles are tables recorded by the harness; float
    arithmetic and comparisons are Coq's primitive floats.
    CAccept: record of tie (4) (decided by the harness oracle). *)
-From V Require Export Lang.RefSem Lang.Codegen Lang.Wt Metrics.FloatBits.
+From V Require Export Lang.RefSem Lang.Codegen Lang.Wt Lang.Expand Metrics.FloatBits.
 Local Open Scope Z_scope.
 
 Record tables := mktables {
@@ -99,6 +99,12 @@ Inductive c01case :=
 | CRef (id : N) (p : prog) (file : bytes) (lines : list bytes) (tb : tables)
        (errs : list bool) (final : obs)
 | CGen (id : N) (p : prog) (code : list instr) (strs res : list bytes) (mets : list (mkind * mtype * nat))
+| CSurf (id : N) (sp : sprog) (file : bytes) (lines : list bytes) (tb : tables)
+        (errs : list bool) (final : obs)
+        (code : list instr) (strs res : list bytes) (mets : list (mkind * mtype * nat))
+    (* the SURFACE program (decorators not inlined): Lang/Expand.v inlines and
+       numbers it; then both ties on the result: reference semantics vs the
+       observed run, model code generator vs the real object code *)
 | CAccept (id : N) (accepted : bool).
 
 Definition operand_eqb (a b : operand) : bool :=
@@ -126,7 +132,7 @@ Fixpoint list_eqb2 {A B} (f : A -> B -> bool) (a : list A) (b : list B) : bool :
   end.
 
 Definition case_id (c : c01case) : N :=
-  match c with CRef i _ _ _ _ _ _ => i | CGen i _ _ _ _ _ => i | CAccept i _ => i end.
+  match c with CRef i _ _ _ _ _ _ => i | CGen i _ _ _ _ _ => i | CSurf i _ _ _ _ _ _ _ _ _ _ => i | CAccept i _ => i end.
 
 Definition case_ok (c : c01case) : bool :=
   match c with
@@ -139,6 +145,16 @@ Definition case_ok (c : c01case) : bool :=
       let o := codegen p in
       list_eqb instr_eqb (o_prog o) code && list_eqb bytes_eqb (o_strs o) strs
       && list_eqb bytes_eqb (p_res p) res && list_eqb2 met_eqb (o_metrics o) mets
+  | CSurf _ sp file lines tb errs final code strs res mets =>
+      match expand sp with
+      | Some p =>
+          let (st, outs) := ref_lines (mk_env tb) p file lines (init_rstore p) in
+          let o := codegen p in
+          wt p && list_eqb Bool.eqb (map is_err outs) errs && obs_eqb (p_decls p) st final
+          && list_eqb instr_eqb (o_prog o) code && list_eqb bytes_eqb (o_strs o) strs
+          && list_eqb bytes_eqb (p_res p) res && list_eqb2 met_eqb (o_metrics o) mets
+      | None => false
+      end
   | CAccept _ _ => true
   end.
 
@@ -151,7 +167,12 @@ Definition explain (c : c01case) :=
   | _ => None
   end.
 Definition in_frag (c : c01case) : bool :=
-  match c with CRef _ p _ _ _ _ _ => wt p && in_fragment p && scoped_otherwise p | _ => false end.
+  match c with
+  | CRef _ p _ _ _ _ _ => wt p && in_fragment p && scoped_otherwise p
+  | CSurf _ sp _ _ _ _ _ _ _ _ _ =>
+      match expand sp with Some p => wt p && in_fragment p && scoped_otherwise p | None => false end
+  | _ => false
+  end.
 Definition explain_gen (c : c01case) :=
   match c with
   | CGen _ p code strs res mets => Some (o_prog (codegen p), code)
